@@ -910,6 +910,14 @@ fn exec_reentrant(outer: &Op, inner: &[Op], l: &mut Local, t: &Arc<Tables>) -> R
                 kv(props)
             });
         }
+        Op::AddEvent { slot, name, props } if name.starts_with("dep.") => {
+            // the deprecated free-standing form, with a closure that traces
+            let s = get_span(t, *slot)?;
+            #[allow(deprecated)]
+            Event::add_to_parent(name.clone(), &s, || {
+                kv(props).map(|(k, v)| (std::borrow::Cow::<'static, str>::from(k), std::borrow::Cow::<'static, str>::from(v)))
+            });
+        }
         Op::AddEvent { slot, name, props } => {
             let s = get_span(t, *slot)?;
             let e = Event::new(name.clone()).with_properties(|| {
@@ -927,6 +935,12 @@ fn exec_reentrant(outer: &Op, inner: &[Op], l: &mut Local, t: &Arc<Tables>) -> R
         Op::LocalAddProps { props } => {
             LocalSpan::add_properties(|| {
                 kv(props)
+            });
+        }
+        Op::LocalAddEvent { name, props } if name.starts_with("dep.") => {
+            #[allow(deprecated)]
+            Event::add_to_local_parent(name.clone(), || {
+                kv(props).map(|(k, v)| (std::borrow::Cow::<'static, str>::from(k), std::borrow::Cow::<'static, str>::from(v)))
             });
         }
         Op::LocalAddEvent { name, props } => {
